@@ -19,14 +19,15 @@ MID_POOL = [3, 9, 10, 11, 20, 99, 100, 101, 200, 999, 1000, 1001, 2000, 9999, 10
 
 @st.composite
 def collection(draw, min_msgs=0, max_msgs=8, faults='some', rich=False, with_delete='maybe',
-               kinds=None, create_anywhere=True, pad_ids=False):
+               kinds=None, create_anywhere=True, pad_ids=False, allow_no_slug=False):
     """-> {'docs': [roCreate, msg...] in ascending message-ID order, 'ro_id', 'mids'}
     Messages are drawn one after the other against the state the (real) running
     order has reached, so most of them apply; `faults` salts in failing ones."""
     kinds = list(kinds or [k for k in build.ALL_KINDS if k != 'roDelete'])
     n = draw(st.integers(min_msgs, max_msgs))
     mids = sorted(draw(st.lists(st.sampled_from(MID_POOL), unique=True, min_size=n + 2, max_size=n + 2)))
-    ro = draw(gen.running_order(min_stories=1, max_stories=4, max_items=3, rich=rich, simple_ids=not rich))
+    ro = draw(gen.running_order(min_stories=1, max_stories=4, max_items=3, rich=rich, simple_ids=not rich,
+                                allow_no_slug=allow_no_slug))
     root = ET.fromstring(ro['ro_xml'])
     # the roCreate need not carry the lowest message ID of the collection
     create_mid = mids[0]
@@ -71,6 +72,23 @@ def collection(draw, min_msgs=0, max_msgs=8, faults='some', rich=False, with_del
                 r = ET.fromstring(d)
                 m = r.find('messageID')
                 m.text = {'space': f' {m.text} ', 'newline': f'\n    {m.text}\n  ', 'zeros': '00' + m.text}[how]
+                d = ET.tostring(r, encoding='unicode')
+            out.append(d)
+        docs = out
+    if pad_ids:
+        # envelopes in another shape: the messageID after the body, and an unrelated header
+        # element (before it) that has a messageID / roID of its own nested inside
+        out = []
+        for d in docs:
+            if draw(st.integers(0, 2)) == 0:
+                r = ET.fromstring(d)
+                m = r.find('messageID')
+                r.remove(m)
+                r.append(m)
+                hdr = ET.Element('transportHeader')
+                ET.SubElement(hdr, 'messageID').text = draw(st.sampled_from(['5', '77777777', 'x']))
+                ET.SubElement(hdr, 'roID').text = 'OTHER'
+                r.insert(0, hdr)
                 d = ET.tostring(r, encoding='unicode')
             out.append(d)
         docs = out
